@@ -136,6 +136,8 @@ func features() sqlgen.Features {
 // sweep pairs that belong to one listed root cause share its switch
 var sweepSwitch = map[string]string{
 	"WindowFrame.Start": "c14.window_frame_children", "WindowFrame.End": "c14.window_frame_children", "WindowSpec.FrameClause": "c14.window_frame_children",
+	"FunctionDesc.Name": "c14.trigger_name_nodes", "TriggerEvent.Columns": "c14.trigger_name_nodes", "TriggerExecBody.FuncDesc": "c14.trigger_name_nodes",
+	"TriggerReferencing.TransitionRelationName": "c14.trigger_name_nodes",
 }
 
 func TestInspectReachesAll(t *testing.T) {
@@ -218,14 +220,14 @@ func setMarker(v reflect.Value, depth int) bool {
 		}
 		if t.Elem().Kind() == reflect.Struct {
 			nv := reflect.New(t.Elem())
-			if fillFirst(nv.Elem(), depth+1) {
+			if fillFirst(nv.Elem(), depth+1) || leafMarker(nv.Elem()) {
 				v.Set(nv)
 				return true
 			}
 		}
 		return false
 	case reflect.Struct:
-		return fillFirst(v, depth+1)
+		return fillFirst(v, depth+1) || leafMarker(v)
 	case reflect.Slice:
 		e := reflect.New(t.Elem()).Elem()
 		if setMarker(e, depth+1) {
@@ -238,6 +240,41 @@ func setMarker(v reflect.Value, depth int) bool {
 }
 
 // fillFirst plants the marker in the first field of struct v that can take it.
+// leafMarker marks a node type that holds no other node (a name node such as *Ident or
+// ObjectName) by writing the marker into its first exported string field.
+func leafMarker(v reflect.Value) bool {
+	if !reflectx.IsNodeType(v.Type()) {
+		return false
+	}
+	for i := 0; i < v.NumField(); i++ {
+		if f := v.Field(i); v.Type().Field(i).PkgPath == "" && f.Kind() == reflect.String && f.CanSet() {
+			f.SetString(markerName)
+			return true
+		}
+	}
+	return false
+}
+
+// ownsMarker: n itself (not a descendant) carries the marker in one of its string fields.
+func ownsMarker(n ast.Node) bool {
+	v := reflect.ValueOf(n)
+	for v.Kind() == reflect.Ptr || v.Kind() == reflect.Interface {
+		if v.IsNil() {
+			return false
+		}
+		v = v.Elem()
+	}
+	if v.Kind() != reflect.Struct {
+		return false
+	}
+	for i := 0; i < v.NumField(); i++ {
+		if f := v.Field(i); f.Kind() == reflect.String && f.String() == markerName {
+			return true
+		}
+	}
+	return false
+}
+
 func fillFirst(v reflect.Value, depth int) bool {
 	for i := 0; i < v.NumField(); i++ {
 		if v.Type().Field(i).PkgPath != "" {
@@ -266,6 +303,9 @@ func oracleSweep(c SweepCase) error {
 		found := false
 		ast.Inspect(root, func(n ast.Node) bool {
 			if id, ok := n.(*ast.Identifier); ok && id != nil && id.Name == markerName {
+				found = true
+			}
+			if n != root && ownsMarker(n) {
 				found = true
 			}
 			rv := reflect.ValueOf(n)
